@@ -63,6 +63,26 @@ def cases(tier, seed):
         add('$formatBase(%s, %s)' % (l, rng.choice(['2', '8', '16', '36', '10', '1', '0', '37', '40', '2.5', '1.5', '35.5', '-2', '36.4', '36.5'])), None, ('formatBase',))
         add('$power(%s, %s)' % (l, rng.choice(['0', '1', '2', '0.5', '-1', '10', '100', '-0.5', '1000'])), None, ('power',))
         add('%s & ""' % l, None, ('string',))
+    # $round against an exact oracle (Python decimal): the shortest decimal of x rounded half-to-even at digit p,
+    # then the nearest double; domain |x|*10^p < 2^53
+    import decimal
+    decimal.getcontext().prec = 60
+    def round_oracle(x, p):
+        d = decimal.Decimal(repr(float(x)))
+        q = d.quantize(decimal.Decimal(1).scaleb(-p), rounding=decimal.ROUND_HALF_EVEN)
+        return float(q)
+    def false_tie(x, p):
+        d = decimal.Decimal(repr(float(x))).scaleb(p)
+        f = float(d)
+        return abs(f - math.floor(f) - 0.5) == 0 and (d - d.to_integral_value(rounding=decimal.ROUND_FLOOR)) != decimal.Decimal('0.5')
+    big = [225179981368524.94, 450359962737049.7, 0.49999999999999994, -0.49999999999999994, 2251799813685249.5, 1125899906842624.9, 4503599627370495.5, 1.005, 2.675, 1.45, 8.345, 0.285, 1.0049999999999999]
+    for x in ds + big + [b / 10 for b in big]:
+        for pp in set([0, 1, 2, rng.randint(-6, 12)]):
+            if x == 0 or not math.isfinite(x) or abs(x) * 10.0 ** pp >= 2.0 ** 53 or abs(x) < 1e-300:
+                continue
+            want = round_oracle(x, pp)
+            tags = ('law', 'law-total', 'round-oracle') + (('round-false-tie',) if false_tie(x, pp) else ())
+            add('$round(%s, %d) = %s' % (fl(x), pp, fl(want) if want != 0 else '0'), None, tags)
     # $round ties and neighbours, exhaustively for small decimals
     for i in range(-50, 51):
         for p in (0, 1, 2, -1):
